@@ -1,6 +1,7 @@
 package props
 
 import (
+	"encoding/base64"
 	"encoding/json"
 	"fmt"
 	"math/big"
@@ -94,6 +95,7 @@ func (p *c05) Cases(tier string, emit func(interface{})) {
 	emit(c05Case{Kind: "bits", Base: "bits"})
 	emit(c05Case{Kind: "identityref", Base: "identityref"})
 	emit(c05Case{Kind: "identityref2", Base: "identityref"})
+	emit(c05Case{Kind: "binary-length", Base: "binary"})
 	emit(c05Case{Kind: "union", Base: "union"})
 }
 
@@ -215,6 +217,8 @@ func c05Module(c c05Case) (text string) {
 		sb.WriteString("  leaf x { type bits { bit a; bit b; bit c { position 5; } } }\n  leaf-list xs { type string; }\n")
 	case "identityref":
 		sb.WriteString("  identity base-id; identity other; identity id-a { base base-id; } identity id-b { base id-a; }\n  leaf x { type identityref { base base-id; } }\n  leaf-list xs { type identityref { base base-id; } }\n")
+	case "binary-length":
+		sb.WriteString("  leaf x { type binary { length \"2..4\"; } }\n  leaf-list xs { type binary { length \"2..4\"; } }\n")
 	case "identityref2":
 		sb.WriteString("  identity b1; identity b2; identity unrelated; identity only1 { base b1; } identity only2 { base b2; } identity deep1 { base only1; } identity both { base b1; base b2; } identity both2 { base both; }\n  leaf x { type identityref { base b1; base b2; } }\n  leaf-list xs { type identityref { base b1; base b2; } }\n")
 	case "union":
@@ -460,6 +464,16 @@ func c05OtherCands(c c05Case, m *meta.Module) []c05Cand {
 		out = append(out, c05Cand{raw: val.Bits{Labels: []string{"zz"}, Positions: 1 << 9}, typed: val.Bits{Labels: []string{"zz"}, Positions: 1 << 9}, accept: false, class: "undeclared-typed-bits"})
 		out = append(out, c05Cand{raw: val.Bits{Labels: []string{"a"}, Positions: 1 << 7}, typed: val.Bits{Labels: []string{"a"}, Positions: 1 << 7}, accept: false, class: "typed-bits-names-disagree-with-positions"})
 		out = append(out, c05Cand{raw: "a c", json: q("a c"), xml: "a c", typed: val.Bits{Labels: []string{"a", "c"}, Positions: 1 | 1<<5}, accept: true, class: "declared-typed-bits"})
+	case "binary-length":
+		// length of a binary is the number of octets (RFC 7950 9.8.1), not of base64 characters
+		for n := 0; n <= 6; n++ {
+			raw := make([]byte, n)
+			for i := range raw {
+				raw[i] = byte(250 + i)
+			}
+			text := base64.StdEncoding.EncodeToString(raw)
+			out = append(out, c05Cand{raw: text, json: q(text), xml: text, accept: n >= 2 && n <= 4, class: fmt.Sprintf("%d-octets", n)})
+		}
 	case "identityref2":
 		// two bases: only what is derived from both (RFC 7950 9.10.2)
 		for _, good := range []string{"both", "both2"} {
